@@ -14,8 +14,8 @@ m = re.search(r"=\s*(\d+)", r.stdout); k = int(m.group(1)) if m else -1
 print("first bad step:", k, "of", len(steps), r.stderr[-500:])
 if k > 0:
     pre = steps[:k-1]
-    f.write_text(H.PRELUDE + "\nDefinition t := " + core.clist(pre) + ".\nDefinition s0 := fold_left (fun s x => collect (fst (step s (top x))) (tdied x)) t init.\n"
-                 "Definition x := " + steps[k-1] + ".\nEval vm_compute in (step s0 (top x)).\n")
+    f.write_text(H.PRELUDE + "\nDefinition t := " + core.clist(pre) + ".\nDefinition s0 := fold_left (fun s x => collect (fst ((if tshare x then step else step_d) s (top x))) (tdied x)) t init.\n"
+                 "Definition x := " + steps[k-1] + ".\nEval vm_compute in ((if tshare x then step else step_d) s0 (top x)).\n")
     r = core.coqc(f)
     print("PROG OP:", [p for p in case["prog"]][:k+3])
     print("STEP   :", steps[k-1][:1500])
